@@ -1,8 +1,177 @@
-import Ufw.Model.RegTable
+/-
+C02 – block writes are validated as a whole and are all-or-nothing.  Property theorems only.
+
+Proved: the decision structure (a block write succeeds exactly when the three validations pass,
+in the order read-only / unmapped / malformed), what each validation means in terms of the areas
+and registers the request overlaps, all-or-nothing on refusal, the touched marks and that the
+register descriptions are otherwise untouched.  NOT proved (correspondence only, named in
+DESIGN.md): that on success exactly the n addressed words change (`block_write_frame`).
+-/
+import Ufw.Lemmas.RegFlat
+
 namespace Ufw.Props.C02
-open Ufw Ufw.Model.RegTable
-/-- an uninitialised table refuses typed access -/
-theorem uninitialised_refuses (cb : Nat → Value → Bool) (t : Table) (h : t.initialised = false) (idx : Nat) (v : Value) :
-    register_set cb t idx v = (⟨.uninitialised, idx⟩, t) ∧ (register_get t idx).1 = ⟨.uninitialised, idx⟩ := by
-  simp [register_set, register_setx, register_get, h]
+open Ufw Ufw.Model.RegTable Ufw.Lemmas.RegTable
+
+/-- all-or-nothing: a refused block write leaves every word (the whole table) unchanged -/
+theorem refused_unchanged (cb : Nat → Value → Bool) (t : Table) (addr : Nat) (buf : List Atom)
+    (h : (register_block_write cb t addr buf).1.code ≠ .success) : (register_block_write cb t addr buf).2 = t := by
+  simp only [register_block_write] at h ⊢
+  split
+  · rfl
+  split
+  · rfl
+  split
+  · split
+    · split
+      · split
+        · rename_i h1 h2 h3 t' h4
+          simp_all
+        · rfl
+      · rfl
+    · rfl
+  · rfl
+
+/-- the block is validated as a whole before anything is written: the result is the first of
+    (1) a touched area that is not writable, (2) an unmapped address, (3) an overlapped register
+    that would not decode or not satisfy its constraint; only when all three pass are words written -/
+theorem decision (cb : Nat → Value → Bool) (t : Table) (wf : WfAreas t) (hi : t.initialised = true) (addr : Nat)
+    (buf : List Atom) (hn : buf ≠ []) :
+    register_block_write cb t addr buf =
+      (match ra_writeable t addr buf.length with
+       | ⟨.success, _⟩ =>
+         (match firstHole t addr buf.length with
+          | some x => (⟨.noentry, x⟩, t)
+          | none =>
+            (match ra_malformed_write cb t addr buf with
+             | ⟨.success, _⟩ =>
+               (match blockWriteLoop buf.length t addr buf with
+                | some t' => (⟨.success, 0⟩, reg_taint_in_range t' addr buf.length)
+                | none => (oob, t))
+             | r => (r, t)))
+       | r => (r, t)) := by
+  have hl : ¬ buf.length = 0 := by
+    intro h0; exact hn (List.length_eq_zero_iff.mp h0)
+  simp only [register_block_write, hi, Bool.not_true, Bool.false_eq_true, ↓reduceIte, hl,
+    register_block_touches_hole, touchesHole_eq t wf buf.length addr buf.length (Nat.le_refl _)]
+  rcases hw : ra_writeable t addr buf.length with ⟨c, a⟩
+  cases c <;> cases hh : firstHole t addr buf.length <;> rfl
+
+/-- writability: every area the request overlaps must have a write callback and the writeable flag;
+    otherwise 'read-only' at the first address of the request inside the first such area -/
+theorem writeable_spec (addr n : Nat) : ∀ (areas : List Area),
+    (ra_writeable.go addr n areas = ⟨.success, 0⟩ ∨
+     ∃ a ∈ areas, ¬ (a.base + a.size ≤ addr) ∧ ¬ (addr + n ≤ a.base) ∧ (a.hasWrite && a.writeable) = false ∧
+       ra_writeable.go addr n areas = ⟨.readonly, max a.base addr⟩) := by
+  intro areas
+  induction areas with
+  | nil => left; rfl
+  | cons a rest ih =>
+    simp only [ra_writeable.go]
+    by_cases h1 : a.base + a.size ≤ addr
+    · simp only [h1, ↓reduceIte]
+      rcases ih with h | ⟨b, hb, r1, r2, r3, r4⟩
+      · left; exact h
+      · right; exact ⟨b, List.mem_cons_of_mem _ hb, r1, r2, r3, r4⟩
+    · simp only [h1, ↓reduceIte]
+      by_cases h2 : addr + n ≤ a.base
+      · simp [h2]
+      · simp only [h2, ↓reduceIte]
+        by_cases h3 : (a.hasWrite && a.writeable) = true
+        · simp only [h3, Bool.not_true, Bool.false_eq_true, ↓reduceIte]
+          rcases ih with h | ⟨b, hb, r1, r2, r3, r4⟩
+          · left; exact h
+          · right; exact ⟨b, List.mem_cons_of_mem _ hb, r1, r2, r3, r4⟩
+        · right
+          refine ⟨a, List.mem_cons_self .., h1, h2, by simpa using h3, ?_⟩
+          simp [h3]
+
+/-- when the writability check passes, every area that overlaps the request is writable (areas
+    ascending, as `register_init` demands) -/
+theorem writeable_ok (addr n : Nat) : ∀ (areas : List Area),
+    areas.Pairwise (fun a b => a.base ≤ b.base) →
+    ra_writeable.go addr n areas = ⟨.success, 0⟩ →
+    ∀ a ∈ areas, ¬ (a.base + a.size ≤ addr) → ¬ (addr + n ≤ a.base) → (a.hasWrite && a.writeable) = true := by
+  intro areas
+  induction areas with
+  | nil => intro _ _ a ha; simp at ha
+  | cons x rest ih =>
+    intro hs hgo a ha h1 h2
+    simp only [ra_writeable.go] at hgo
+    have hs' := (List.pairwise_cons.mp hs)
+    by_cases c1 : x.base + x.size ≤ addr
+    · simp only [c1, ↓reduceIte] at hgo
+      rcases List.mem_cons.mp ha with rfl | hr
+      · exact absurd c1 h1
+      · exact ih hs'.2 hgo a hr h1 h2
+    · simp only [c1, ↓reduceIte] at hgo
+      by_cases c2 : addr + n ≤ x.base
+      · -- every later area begins behind the request as well
+        rcases List.mem_cons.mp ha with rfl | hr
+        · exact absurd c2 h2
+        · have := hs'.1 a hr
+          exact absurd (by omega : addr + n ≤ a.base) h2
+      · simp only [c2, ↓reduceIte] at hgo
+        by_cases c3 : (x.hasWrite && x.writeable) = true
+        · simp only [c3, Bool.not_true, Bool.false_eq_true, ↓reduceIte] at hgo
+          rcases List.mem_cons.mp ha with rfl | hr
+          · exact c3
+          · exact ih hs'.2 hgo a hr h1 h2
+        · simp [c3] at hgo
+
+/-- on success the registers the block overlaps - fully or partly - are marked touched, the others
+    keep their mark, and nothing else of a register description changes -/
+theorem taint_spec (t : Table) (addr n : Nat) (i : Nat) (e : Entry) (h : t.entries[i]? = some e) :
+    (reg_taint_in_range t addr n).entries[i]? =
+      some (if e.address + e.type.size ≤ addr ∨ addr + n ≤ e.address then e else { e with touched := true }) := by
+  simp [reg_taint_in_range, List.getElem?_map, h]
+
+/-- the validation of overlapped registers: when it passes, every register that the block
+    overlaps decodes and satisfies its constraint once the new words are overlaid on its content -/
+theorem malformed_ok (cb : Nat → Value → Bool) (t : Table) (addr : Nat) (buf : List Atom) :
+    ∀ (es : List Entry), es.Pairwise (fun a b => a.address ≤ b.address) →
+    ra_malformed_write.go cb t addr buf buf.length es = ⟨.success, 0⟩ →
+    ∀ e ∈ es, ¬ (e.address + e.type.size ≤ addr) → ¬ (addr + buf.length ≤ e.address) →
+      ∃ a raw, t.areas[e.area]? = some a ∧ a.read e.offset e.type.size = some raw ∧
+        let rs := max addr e.address - e.address
+        let bs := max addr e.address - addr
+        let rlen := min (addr + buf.length) (e.address + e.type.size) - max addr e.address
+        let raw' := raw.take rs ++ ((buf.drop bs).take rlen ++ raw.drop (rs + rlen))
+        (des t.bigEndian e.type raw').2 = true ∧ rv_validate cb t e (des t.bigEndian e.type raw').1 = true := by
+  intro es
+  induction es with
+  | nil => intro _ _ e he; simp at he
+  | cons x rest ih =>
+    intro hs hgo e he h1 h2
+    have hs' := List.pairwise_cons.mp hs
+    simp only [ra_malformed_write.go] at hgo
+    by_cases c1 : x.address + x.type.size ≤ addr
+    · simp only [c1, ↓reduceIte] at hgo
+      rcases List.mem_cons.mp he with rfl | hr
+      · exact absurd c1 h1
+      · exact ih hs'.2 hgo e hr h1 h2
+    · simp only [c1, ↓reduceIte] at hgo
+      by_cases c2 : addr + buf.length ≤ x.address
+      · rcases List.mem_cons.mp he with rfl | hr
+        · exact absurd c2 h2
+        · have := hs'.1 e hr
+          exact absurd (by omega : addr + buf.length ≤ e.address) h2
+      · simp only [c2, ↓reduceIte] at hgo
+        cases ha : t.areas[x.area]? with
+        | none => simp [ha, oob] at hgo
+        | some a =>
+          simp only [ha] at hgo
+          cases hr : a.read x.offset x.type.size with
+          | none => simp [hr, oob] at hgo
+          | some raw =>
+            simp only [hr] at hgo
+            split at hgo
+            · simp at hgo
+            rename_i hok
+            split at hgo
+            · simp at hgo
+            rename_i hval
+            rcases List.mem_cons.mp he with rfl | hrest
+            · exact ⟨a, raw, ha, hr, by simpa using hok, by simpa using hval⟩
+            · exact ih hs'.2 hgo e hrest h1 h2
+
 end Ufw.Props.C02
